@@ -43,6 +43,8 @@ static void srgb_lowp(Rng& r, int n)
 	for (int i = 0; i <= n; ++i) {
 		double xd = (i % 3 == 0) ? (double)i / n : r.real(0, 1); if (i % 7 == 1) xd = knee * std::pow(10.0, r.real(0, 2.5)); if (i % 7 == 2) xd = knee * std::pow(10.0, -r.real(0, 5)); if (i % 17 == 3) xd = knee + r.real(0, 1e-5);
 		if (xd > 1) xd = 1; float x = (float)xd; int lane = i % 3; float e = f(x, lane); std::string in = str((double)x); double ref = ref_l2s((double)x, 1 / 2.4);
+		{ double s1 = std::sqrt((double)x), s2 = std::sqrt(s1), s3 = std::sqrt(s2), model = 0.662002687 * s1 + 0.684122060 * s2 - 0.323583601 * s3 - 0.0225411470 * (double)x;   // the formula of P_C19_lowp.v
+		  if (!(std::fabs((double)e - model) <= 2e-6)) tfail(fn, "differs from the modelled formula (P_C19_lowp.v)", in, str(model), str((double)e)); }
 		if ((double)x < knee) { if (!(e >= 0 && std::fabs((double)e - ref) <= 2e-3)) tfail(fn, "below the threshold 0.0031308", in, str(ref), str((double)e)); continue; }
 		if (!(std::fabs((double)e - ref) <= 2e-3)) tfail(fn, "value (2e-3)", in, str(ref), str((double)e));
 		if (!(e >= 0 && e <= 1.000002f)) tfail(fn, "outside [0,1]", in, "[0,1]", str((double)e));
